@@ -234,6 +234,7 @@ func init() {
 				meta.Histogram["equivalent"]++
 			}
 			baseline[caseKey] = append([]string{}, o.Problems...)
+			meta.CaseKeys = append(meta.CaseKeys, caseKey)
 			for _, p := range o.Problems {
 				meta.Histogram["problem:"+p]++
 				meta.GoViolation = append(meta.GoViolation, map[string]any{"signature": p, "case_key": caseKey, "cases": []any{c}, "go_observation": o, "judgement": "after InternalizeRefs: " + p})
